@@ -44,15 +44,19 @@ def dict_diff(a, b):
 
 def roundtrip(iso, target, tag):
     from pygaps.parsing import isotherm_from_json, isotherm_to_json
+    keys = {}
+    if getattr(iso, 'pressure_key', 'pressure') != 'pressure' or getattr(iso, 'loading_key', 'loading') != 'loading':
+        # the JSON document does not name the pressure/loading columns: the importer takes them as arguments
+        keys = dict(pressure_key=iso.pressure_key, loading_key=iso.loading_key)
     if target == 'string':
         txt = isotherm_to_json(iso)
-        back = isotherm_from_json(txt)
+        back = isotherm_from_json(txt, **keys)
         txt2 = isotherm_to_json(back)
     else:
         path = os.path.join(core.scratch(), f'c06-{os.getpid()}.json')
         isotherm_to_json(iso, path)
         txt = open(path, encoding='utf-8').read()
-        back = isotherm_from_json(path)
+        back = isotherm_from_json(path, **keys)
         isotherm_to_json(back, path)
         txt2 = open(path, encoding='utf-8').read()
     return txt, back, txt2
@@ -137,6 +141,25 @@ def work(arg):
             res['viol'] += judge(iso, 'point', case, target, sigx)
             res['ev'] += 1
             res['nt'] += 1
+    elif kind == 'converted':
+        # non-initial states: the same labels REACHED by permanent conversions from the default representation
+        for target in ('string', 'file'):
+            mk = core.call(g.mk_point_converted, cfg, spec, meta_small, scale)
+            res['ev'] += 1
+            if not mk.ok:
+                raise core.HarnessError(f'cannot build a converted isotherm for {cfg}: {mk.brief()}')
+            res['viol'] += judge(mk.value, 'point', {'units': cfg, 'shape': spec, 'reached_by': 'conversion from default units'}, target,
+                                 {'reached_by': 'conversion'})
+            res['nt'] += 1
+    elif kind == 'custom-keys':
+        import pygaps
+        for target in ('string', 'file'):
+            df = g.point_frame(*spec, scale).rename(columns={'pressure': 'p/p0 [-]', 'loading': 'uptake'})
+            iso = pygaps.PointIsotherm(isotherm_data=df, pressure_key='p/p0 [-]', loading_key='uptake', material='gen-mat', adsorbate='N2',
+                                       temperature=77.355, **g.units(cfg), **meta_small)
+            res['viol'] += judge(iso, 'point', {'units': cfg, 'shape': spec, 'column names': ['p/p0 [-]', 'uptake']}, target, {'keys': 'custom'})
+            res['ev'] += 1
+            res['nt'] += 1
     elif kind == 'meta':
         cls, (key, val) = spec
         for target in ('string', 'file'):
@@ -187,6 +210,12 @@ def run(ctx):
     for ci, cfg in enumerate(cfgs):
         for spec in (shapes if (not ctx.quick or ci in (0, 4)) else shapes[ci % 5::5]):
             jobs.append(('point', cfg, spec, ctx.scale))
+        for spec in g.ZERO_SHAPES + g.TEXTNUM_SHAPES:
+            if not ctx.quick or ci in (0, 3, 5) or spec[0] == 4:
+                jobs.append(('point', cfg, spec, ctx.scale))
+        for spec in ((4, 'guessable', 'numeric'), (7, 'user-alternating', 'both')):
+            jobs.append(('converted', cfg, spec, ctx.scale))
+        jobs.append(('custom-keys', cfg, (4, 'guessable', 'numeric'), ctx.scale))
         for cls in ('base', 'point', 'model'):
             for kv in (META_ALPHABET if (not ctx.quick or ci == 0) else META_ALPHABET[ci % 4::4]):
                 jobs.append(('meta', cfg, (cls, kv), ctx.scale))
@@ -207,7 +236,7 @@ def run(ctx):
     ctx.cov['domain_sizes'] = {'unit_configs': len(cfgs), 'data_shapes': len(shapes), 'metadata_alphabet': len(META_ALPHABET),
                                'models': len(g.MODEL_PARAMS), 'jobs': len(jobs)}
     ctx.cov['rule'] = ('product of class x unit configuration x data shape (n, branch pattern, extra columns) x metadata alphabet x target (string, file) '
-                       'x 16 models (DR/DA also fitted); quick thins the product over the non-default unit configurations (every value of every '
+                       'x 16 models (DR/DA also fitted); plus isotherms reached by permanent conversion from the default units, exact-zero pressures, text columns spelling numbers, user column names; quick thins the product over the non-default unit configurations (every value of every '
                        'dimension still occurs), thorough enumerates it completely. Each case is one export+import+re-export.')
     ctx.sample({'class': 'point', 'units': list(cfgs[4]), 'shape': list(shapes[10]), 'target': 'file'})
     ctx.sample({'class': 'model', 'model': 'DA', 'built': 'fitted', 'checked': 'predictions on a 10-point grid equal after the round trip'})
